@@ -106,7 +106,8 @@ def check(ck):
 
 def _variable_table(ck, repo):
     f = repo.func(VARS, "variable_coercer")
-    fv = FuncView(f)
+    from ..q import inlined_view as _iv
+    fv = _iv(repo, f, max_stmts=20)   # a helper holding the default-value arm is part of the table
     p = f.positional_params  # executable_variable_definition, raw_variable_values, ctx, input_coercer, literal_coercer
     d, raw, ctx, inc, lit = p
     get = f"{raw}.get({d}.name, UNDEFINED_VALUE)"
@@ -236,6 +237,13 @@ def _abort(ck, repo):
         ck.ob(f"{fn}: takes (context, errors) from build_execution_context", ok, f, bc or f.node, construct=f"abort:{fn}:unpack")
         c = fv.maybe_call(callee)
         ok = c is not None and fv.guarded(c, lambda t: t == "errors", "F")
+        if c is None:
+            # called through a local alias (`start = field.subscribe; return start(...)`): judge the paths that end in that call
+            from ..pathtab import outcome_rows as _rows
+            from ..q import inlined_view as _iv
+            iv_ = _iv(repo, f, max_stmts=25)
+            hits = [r_ for r_ in _rows(iv_) if r_["exit"] == "return_exit" and r_["ret"] is not None and isinstance(strip_await(r_["ret"]), ast.Call) and callee_last(strip_await(r_["ret"])) == callee]
+            ok = bool(hits) and all(any(t_.strip().endswith("[1]") and "build_execution_context(" in t_ and o_ == "F" for t_, o_ in r_["conds"]) for r_ in hits)
         ck.ob(f"{fn}: {callee} runs only when no error was reported", ok, f, c or f.node, construct=f"abort:{fn}:guard")
         rb = [r for r in fv.returns() if fv.guarded(r, lambda t: t == "errors", "T")]
         ok = len(rb) == 1 and unparse(strip_await(rb[0].value)) == "response_builder(errors=errors)"
